@@ -149,7 +149,7 @@ package iam
 //@   prop C02 C05
 //@   assume-benign
 //@   ensures !isNilIface(result)
-//@   call (storage.SessionDatabase).GetStore #1 requires [nonce-marks-outlive-the-presentation] int64(arg(1)) >= int64(s2sMaxPresentationValidity) + int64(s2sMaxClockSkew)
+//@   call (storage.SessionDatabase).GetStore #1 requires [nonce-marks-outlive-the-acceptance-window-of-the-presentation] int64(arg(1)) >= int64(s2sMaxPresentationValidity) + 2*int64(s2sMaxClockSkew)
 
 // The nonce is stored on every path that read it (burned regardless of the outcome), and success means it was not seen before.
 //@ func (Wrapper).validateS2SPresentationNonce
